@@ -63,6 +63,9 @@ def handle : List Sx → Sx
       | .error .syntax => .list [.atom "err", .atom "syntax"]
       | .error .outOfFuel => .list [.atom "err", .atom "fuel"]
     | _, _ => .atom "bad-request"
+  | [.atom "typearms"] =>
+    -- the type keywords `parse_data_type` dispatches on, as extracted from the source on this run
+    .list (.atom "arms" :: VibeProof.Generated.parserDataTypeArms.map (fun a => Sx.atom a))
   | [.atom "chain", .atom n] =>
     -- a left-associative chain of n links against MAX_CHAIN_LENGTH read from the source
     match n.toNat? with
